@@ -183,6 +183,7 @@ def _decode(buffer: "_Buffer", fcp: "ref:FcpV2", type: "ref:Type") -> "dyn":
                     result == v and buffer.bitaddr == old(buffer.bitaddr) + len(wire(fcp, type, v))))
     ghost_arg("_decode_str", v=v)
     ghost_arg("_decode_struct", v=v)
+    lemma_before("_decode_struct", unpack_rep(data))
     ghost_arg("_decode_array", v=v)
     ghost_arg("_decode_dynamic_array", v=v)
     ghost_arg("_decode_optional", v=v)
@@ -205,3 +206,4 @@ def decode(fcp: "ref:FcpV2", name: "str", data: "arr") -> "dyn":
     no_raise_if(conforms_struct(fcp, name, v) and starts_struct(fcp, name, bits_of_bytes(data), 0, v))
     ensures(implies(conforms_struct(fcp, name, v) and starts_struct(fcp, name, bits_of_bytes(data), 0, v), result == v))
     ghost_arg("_decode_struct", v=v)
+    lemma_before("_decode_struct", unpack_rep(data))
